@@ -20,7 +20,11 @@ from typing import (
 from comb_spec_searcher.class_db import ClassDB
 from comb_spec_searcher.exception import StrategyDoesNotApply
 from comb_spec_searcher.strategies.rule import AbstractRule
-from comb_spec_searcher.strategies.strategy import AbstractStrategy, StrategyFactory
+from comb_spec_searcher.strategies.strategy import (
+    AbstractStrategy,
+    EmptyStrategy,
+    StrategyFactory,
+)
 from comb_spec_searcher.strategies.strategy_pack import StrategyPack
 from comb_spec_searcher.typing import RuleKey
 
@@ -83,7 +87,8 @@ class RecomputingDict(MutableMapping[RuleKey, AbstractStrategy]):
         if self._flatten(key) not in self.rules:
             raise KeyError(key)
         possible_labels = (key[0],) + key[1]
-        for label, strat in itertools.product(possible_labels, self.pack):
+        strats = itertools.chain([EmptyStrategy()], self.pack)
+        for label, strat in itertools.product(possible_labels, strats):
             comb_class = self.classdb.get_class(label)
             if isinstance(strat, StrategyFactory):
                 strats_or_rules: Iterable[Union[AbstractRule, AbstractStrategy]] = (
